@@ -12,7 +12,7 @@ from vp import storemodel as sm
 from vp.engine import assume, check, cover, note, obligation, pick
 from vp.memenv import Program, Sandbox, concrete_region
 
-OPS = sm.build_ops(values=("small", "oversize", "none"))
+OPS = sm.build_ops(values=("small", "oversize", "none"), metadata_with_data=True)
 
 
 from vp.fsaudit import MutationAudit, tree_digest  # noqa: E402
@@ -35,9 +35,9 @@ def _open_readonly(sb, kind):
 
 @obligation(
     "C19.histories",
-    covers=("rejected", "silently-skipped", "reads-still-work"),
-    split={"kind": [0, 1, 2, 3], "pre": [0, 1, 2]},
-    bounds="a filesystem store pre-populated by a writable back-end (3 initial contents) and reopened read-only (flag from argument or from "
+    covers=("rejected", "silently-skipped", "reads-still-work", "store-with-crash-debris"),
+    split={"kind": [0, 1, 2, 3], "pre": [0, 1, 2, 3]},
+    bounds="a filesystem store pre-populated by a writable back-end (3 initial contents, plus one with crash debris: a memento link truncated to nothing and a dangling one) and reopened read-only (flag from argument or from "
            "configuration, shared / separate metadata path, with / without memory cache); all sequences of L=2 operations out of %d (the C05 "
            "alphabet); after every operation: no file-system mutation event under the store roots (audit hook), tree digest unchanged, all "
            "read-only queries still answer like the dictionary frozen at reopening" % len(OPS),
@@ -61,17 +61,48 @@ def histories(o0: int, o1: int, o2: int, kind: int, pre: int, L: int):
             model = sm.Model()
             w = sb.storage()
             initial = [[], [("memoize", 0, "small", None), ("memoize", 2, "oversize", None), ("write_metadata", 0, b"log-1")],
-                       [("memoize", 0, "none", None), ("memoize", 1, "small", "ko/key1"), ("memoize", 3, "small", None)]][pre]
+                       [("memoize", 0, "none", None), ("memoize", 1, "small", "ko/key1"), ("memoize", 3, "small", None)],
+                       [("memoize", 0, "small", None), ("memoize", 2, "oversize", None), ("memoize", 3, "small", None)]][pre]
             for op in initial:
                 sm.apply_op(w, op)
                 model.apply(op)
+            debris = pre == 3
+            if debris:
+                # crash debris left by an earlier writer: one memento link truncated to nothing, another one dangling
+                import glob
+
+                meta_root = os.path.join(sb.root, "default-meta" if wkind == "fs+meta" else "default")
+                links = sorted(glob.glob(os.path.join(meta_root, "**", "*.memento.json.link"), recursive=True))
+                check("harness:two-memento-links-to-damage", len(links) >= 2, links)
+                open(links[0], "w").close()
+                target = open(links[1]).read().strip()
+                os.unlink(target if os.path.isabs(target) else os.path.join(os.path.dirname(links[1]), target))
+                cover("store-with-crash-debris")
             ro, roots = _open_readonly(sb, k)
             check("read-only-flag-set", ro.read_only is True, ro.read_only)
             for r in roots:
                 os.makedirs(r, exist_ok=True)
             before = tree_digest(roots)
+
+            def queries(tag):
+                if not debris:
+                    sm.check_queries(ro, model, tag)
+                    return
+                # with debris in the store the answers are C08's concern; here: whatever the queries answer, they do not write
+                fahs = [f.fn_reference_with_arg_hash() for f in sm.FWAS]
+                for thunk in (lambda: ro.get_mementos(fahs), lambda: [ro.get_memento(f) for f in fahs],
+                              lambda: [ro.is_memoized(f.fn_reference, f.arg_hash) for f in sm.FWAS], lambda: ro.is_all_memoized(sm.FWAS),
+                              lambda: ro.list_functions(), lambda: [ro.list_mementos(r) for r in sm.FNS],
+                              lambda: [ro.read_result(mm) for mm in ro.get_mementos(fahs) if mm is not None],
+                              lambda: [ro.read_metadata(f, "log") for f in fahs]):
+                    try:
+                        thunk()
+                    except Exception:  # noqa
+                        pass
+
             with MutationAudit(roots) as audit:
-                sm.check_queries(ro, model, "reopened:")
+                queries("reopened:")
+                check("reading-a-damaged-store-writes-nothing", audit.events == [] and tree_digest(roots) == before, audit.events[:4])
                 cover("reads-still-work")
                 for oi in [o0, o1, o2][:L]:
                     op = OPS[oi]
@@ -83,12 +114,15 @@ def histories(o0: int, o1: int, o2: int, kind: int, pre: int, L: int):
                     if op[0] == "memoize":
                         cover("silently-skipped")
                         check("memoize-silently-skipped", raised is None, repr(raised))
+                    elif isinstance(raised, sm.NotApplicable):
+                        pass  # no stored data object to attach to
                     else:
                         cover("rejected")
                         check("forget-and-metadata-writes-rejected", isinstance(raised, ValueError), (op, repr(raised)))
                     check("no-filesystem-mutation-event-under-the-store", audit.events == [], (op, audit.events[:4]))
                     check("tree-unchanged", tree_digest(roots) == before, op)
-                    sm.check_queries(ro, model, "")
+                    queries("")
+                    check("queries-write-nothing", audit.events == [] and tree_digest(roots) == before, (op, audit.events[:4]))
         finally:
             sb.close()
 
@@ -99,14 +133,15 @@ SRC = (
     "    _trace.append(x)\n"
     "    return x + 1\n"
 )
-FN_OPS = ["call-hit", "call-miss", "forget", "forget_all", "put_metadata", "memento", "list_mementos", "call_batch", "ignore_result-miss"]
+FN_OPS = ["call-hit", "call-miss", "forget", "forget_all", "put_metadata", "memento", "list_mementos", "call_batch", "ignore_result-miss",
+          "put_metadata-with-data"]
 
 
 @obligation(
     "C19.function_level",
     covers=("miss-executes-but-writes-nothing", "hit"),
     split={"kind": [0, 2]},
-    bounds="function-level sequences of L=3 operations out of %d (call hit, call miss, forget, forget_all, put_metadata, memento, "
+    bounds="function-level sequences of L=3 operations out of %d (call hit, call miss, forget, forget_all, put_metadata with / without store_with_data, memento, "
            "list_mementos, call_batch, ignore_result miss) through the public API on a cluster whose pre-populated filesystem store is "
            "read-only: no mutation event, tree digest unchanged" % len(FN_OPS),
     variables="choice: o0, o1, o2",
@@ -147,6 +182,9 @@ def function_level(o0: int, o1: int, o2: int, kind: int):
                         elif name == "put_metadata":
                             f.put_metadata("log", b"y", 1)
                             check("put_metadata-rejected", False, None)
+                        elif name == "put_metadata-with-data":
+                            f.put_metadata("log", b"z", 1, store_with_data=True)
+                            check("put_metadata-rejected", False, None)
                         elif name == "memento":
                             check("memento-readable", f.memento(1) is not None, None)
                         elif name == "list_mementos":
@@ -156,7 +194,7 @@ def function_level(o0: int, o1: int, o2: int, kind: int):
                         else:
                             check("ignore_result-miss", f.ignore_result()(11) is None, None)
                     except ValueError as e:
-                        check("only-mutators-are-rejected", name in ("forget", "forget_all", "put_metadata"), (name, str(e)))
+                        check("only-mutators-are-rejected", name in ("forget", "forget_all", "put_metadata", "put_metadata-with-data"), (name, str(e)))
                     check("no-filesystem-mutation-event-under-the-store", audit.events == [], (name, audit.events[:4]))
                     check("tree-unchanged", tree_digest(roots) == before, name)
                     check("metadata-still-readable", f.get_metadata("log", args=(1,)) == b"x", None)
@@ -201,6 +239,8 @@ def memory_readonly(o0: int, o1: int, from_config: bool):
                 if op[0] == "memoize":
                     cover("silently-skipped")
                     check("memoize-silently-skipped", raised is None, repr(raised))
+                elif isinstance(raised, sm.NotApplicable):
+                    pass
                 else:
                     cover("rejected")
                     check("mutators-rejected", isinstance(raised, ValueError), (op, repr(raised)))
@@ -235,7 +275,10 @@ def null(o0: int, o1: int, o2: int, which: str):
                 be = sb.storage()
                 empty = sm.Model()
                 for oi in ops:
-                    sm.apply_op(be, OPS[oi])
+                    try:
+                        sm.apply_op(be, OPS[oi])
+                    except sm.NotApplicable:
+                        pass
                     empty.history.append(OPS[oi])
                     fahs = [f.fn_reference_with_arg_hash() for f in sm.FWAS]
                     check("null-storage-reports-no-memento", all(x is None for x in be.get_mementos(fahs)), None)
